@@ -126,6 +126,17 @@ add("C10", "c10_surface_code_request_not_clone", "accept", SURFACE_MACRO +
     "fn main() { not_impl!(CodeTokenRequest<'static, BasicErrorResponse, BasicTokenResponse>, NoClone, T: Clone); not_impl!(PkceCodeVerifier, NoCloneV, T: Clone); }")
 add("C10", "c10_surface_code_request_not_clone_timing", "accept", SURFACE_MACRO +
     "fn main() { not_impl!(CodeTokenRequest<'static, BasicErrorResponse, BasicTokenResponse>, NoClone, T: Clone); not_impl!(PkceCodeVerifier, NoCloneV, T: Clone); }", features=TIMING)
+# the containers that hold secrets offer no comparison, ordering, hashing or Display of their own either (a container-level
+# == would compare the secrets inside without the feature, and around the digest comparison with it)
+CONTAINERS = ["BasicTokenResponse", "BasicTokenIntrospectionResponse", "StandardDeviceAuthorizationResponse", "StandardRevocableToken", "BasicClient",
+              "AuthorizationRequest<'static>", "CodeTokenRequest<'static, BasicErrorResponse, BasicTokenResponse>",
+              "PasswordTokenRequest<'static, BasicErrorResponse, BasicTokenResponse>", "RefreshTokenRequest<'static, BasicErrorResponse, BasicTokenResponse>",
+              "ClientCredentialsTokenRequest<'static, BasicErrorResponse, BasicTokenResponse>", "PkceCodeChallenge"]
+for feats, tag in (((), ""), (TIMING, "_timing")):
+    body = SURFACE_MACRO + "fn main() { %s not_impl!(PkceCodeChallenge, NoDispC, T: std::fmt::Display); }" % " ".join(
+        "not_impl!(%s, NoEq%d, T: PartialEq); not_impl!(%s, NoOrd%d, T: PartialOrd); not_impl!(%s, NoHash%d, T: std::hash::Hash); not_impl!(%s, NoDisp%d, T: std::fmt::Display);" % (c, k, c, k, c, k, c, k)
+        for k, c in enumerate(CONTAINERS) if c != "PkceCodeChallenge")
+    add("C10", "c10_surface_containers%s" % tag, "accept", body, features=feats)
 # the probe technique itself: the same assertion about a trait that IS implemented must be rejected
 add("C10", "c10_surface_selftest", "reject", SURFACE_MACRO + "fn main() { not_impl!(ClientSecret, NoDebug, T: std::fmt::Debug); }", code="E0283", needle="Amb")
 
